@@ -347,28 +347,22 @@ def Enforcer.new (defs : Defs) (store : Store) (a : AdapterSt) : Option (Enforce
   | none => none
   | some e => if e.adapter.filtered then some (e, .unit) else some e.loadPolicy
 
-/-- `set_role_manager(rm0)`: the given manager replaces the current one; with auto-build on it is
-cleared and rebuilt from the stored grouping rules (whatever it held), and the role functions are
-registered against it -/
+/-- `set_role_manager(rm0)`: the given manager replaces the current one and the role functions are
+registered against it *first* (so that they follow the manager even if the rebuild fails — the order after
+the repair of F24); with auto-build on it is then cleared and rebuilt from the stored grouping rules
+(whatever it held) -/
 def Enforcer.setRoleManagerWith (e : Enforcer) (rm0 : RoleMgr String) : Enforcer × Res :=
   let e := { e with rm := rm0 }
-  let (e, r) := if e.autoBuild then e.buildRoleLinks else (e, none)
-  match r with
-  | some k => (e, .err k)
-  | none =>
-    match registerG e.gfuncs e.store.g with
-    | none => (e, .err .model)
-    | some gf => ({ e with gfuncs := gf }, .unit)
+  match registerG e.gfuncs e.store.g with
+  | none => (e, .err .model)
+  | some gf =>
+    let e := { e with gfuncs := gf }
+    let (e, r) := if e.autoBuild then e.buildRoleLinks else (e, none)
+    match r with
+    | some k => (e, .err k)
+    | none => (e, .unit)
 
-def Enforcer.setRoleManager (e : Enforcer) : Enforcer × Res :=
-  let e := { e with rm := RoleMgr.new 10 }
-  let (e, r) := if e.autoBuild then e.buildRoleLinks else (e, none)
-  match r with
-  | some k => (e, .err k)
-  | none =>
-    match registerG e.gfuncs e.store.g with
-    | none => (e, .err .model)
-    | some gf => ({ e with gfuncs := gf }, .unit)
+def Enforcer.setRoleManager (e : Enforcer) : Enforcer × Res := e.setRoleManagerWith (RoleMgr.new 10)
 
 def Enforcer.setModel (e : Enforcer) (defs : Defs) (store : Store) : Enforcer × Res :=
   let e := { e with defs := defs, store := store.clear }
